@@ -109,6 +109,7 @@ impl Sc {
             real: Some(RealKind::Program),
             note: "c06".into(),
             decoy_in_cwd: false,
+            echo_mode: false,
         }
     }
 }
